@@ -301,6 +301,8 @@ package comp
 //@   ensures forall k K :: k in r.idx ==> result[k] == r.values[k][r.idx[k]]
 //@   ensures forall k K :: (k in result) == has(r, k)
 //@   ensures forall k K :: has(r, k) ==> result[k] == newest(r, k)
+//@   ensures forall k K :: has(r, k) ==> validSlot(r, k, r.idx[k]) && rank(r, k, r.idx[k]) == 0 && slot(r, k, r.idx[k]) == newest(r, k)
+//@   ensures forall k K, i int :: validSlot(r, k, i) ==> rank(r, k, i) >= 0 && has(r, k)
 //@   assigns nothing
 //@   loop 0: invariant forall k K :: (k in m) == visited(k)
 //@   loop 0: invariant forall k K :: visited(k) ==> k in r.idx && m[k] == r.values[k][r.idx[k]]
